@@ -36,4 +36,7 @@ def check(model, tier):
     from ..rules import merge as _merge
 
     _merge.r05_4_then(ctx, rule="R17.6")
+    from ..rules.foundation import run_foundation
+
+    run_foundation(ctx, "17")
     return run
